@@ -221,7 +221,7 @@ def chk_refusals(seed_i, ei, version):
     return viols, len(blob)
 
 
-HIST_OPS = ["M/0/5", "M/0/0", "M/0", "M/0/1", "M/5", "ckd5", "ckd0", "children02", "gen3"]
+HIST_OPS = ["M/0/5", "M/0/0", "M/0", "M/0/1", "M/5", "ckd5", "ckd0", "children02", "gen3", "M/0/1/2/3/4/5/6", "genM-skip", "genM3"]
 
 
 class WatchOnlyHistories:
@@ -245,6 +245,22 @@ class WatchOnlyHistories:
                 st, nd = attempt(wo.master.ckd, sub[0])
                 got = [public_view(wo, nd)] if st == "ok" else nd
                 subs = [sub]
+            elif op == "genM-skip":
+                # a scan on the ROOT node that skips ahead and is then abandoned (closed): judged only through what follows
+                def skip():
+                    g = wo.address_generator(wo.master)
+                    next(g)
+                    g.send(5)
+                    g.close()
+                    return "closed"
+                st, got = attempt(skip)
+                subs = "skip"
+            elif op == "genM3":
+                def gen_m():
+                    g = wo.address_generator(wo.master)
+                    return [next(g), next(g), next(g)]
+                st, got = attempt(gen_m)
+                subs = "genM3"
             elif op == "children02":
                 st, nds = attempt(wo.master.generate_children, (0, 2))
                 got = [public_view(wo, x) for x in nds] if st == "ok" else nds
@@ -257,8 +273,14 @@ class WatchOnlyHistories:
                 subs = None
             if not last:
                 continue
-            if st != "ok":
+            if subs == "skip" or (st != "ok" and op.startswith("M/") and op.count("/") > 5):
+                pass          # an abandoned scan has no result of its own; a path deeper than five levels may be refused
+            elif st != "ok":
                 viols.append(V(P + ":history:raised", "after %r on the same watch-only wallet, %s raised %s" % (hist[:-1], op, got)))
+            elif subs == "genM3":
+                exp = [("M/%d" % i, hd.p2wpkh(hd.derive(hd.neuter(node), [i]).K, testnet)) for i in (0, 1, 2)]
+                if [tuple(x) for x in got] != exp:
+                    viols.append(V(P + ":history:address_generator:wrong", "after %r: a fresh generator on the root yields %r" % (hist[:-1], got), None, exp))
             elif subs is None:
                 exp = [("M/0/%d" % i, hd.p2wpkh(hd.derive(hd.neuter(node), [0, i]).K, testnet)) for i in (0, 2, 3)]
                 if [tuple(x) for x in got] != exp:
